@@ -9,6 +9,7 @@ Bind:   (a) probe traces of real runs of abstract programs, in three driver mode
         (c) link dispatch: every callable flavour takes effect, every non-link is rejected.
 """
 import copy
+import json
 import io
 import contextlib
 import os
@@ -71,7 +72,9 @@ def materialise(ds):
 def as_datastream(dp, rows):
     from dataflows import DataStream, ResourceWrapper
     from datapackage import Package
-    p = Package(descriptor=copy.deepcopy(dp.descriptor))
+    # the materialised output is a VALUE: the descriptor goes through its JSON text, so that nothing two resources (or two fields)
+    # happen to share as Python objects inside one run survives into the next step
+    p = Package(descriptor=json.loads(json.dumps(dp.descriptor)))
     return DataStream(p, [ResourceWrapper(res, iter(copy.deepcopy(r))) for res, r in zip(p.resources, rows)])
 
 
@@ -236,6 +239,14 @@ def programs(r, t):
     for _ in range(300 if t == 'quick' else 4000):
         n = r.randint(3, 8 if t == 'thorough' else 6)
         progs.append(dict(prog=r.sample(names, n), input=r.choice(['I0', 'I1', 'I1', 'I2', 'I3', 'I4', 'I5', 'I5'])))     # every entry at most once: a step that adds a fixed name twice is ill-typed
+    # a duplicate followed by a step that edits the schema of ONE twin only (the twins are independent resources from then on)
+    for a in ('duplicate', 'duplicate_end'):
+        for b in ('rename_a', 'delete_fields_b', 'set_type_a_string', 'find_replace_b', 'unpivot', 'update_schema', 'update_resource', 'set_type_bc_tf'):
+            progs.append(dict(prog=[a, b], input='I1'))
+            progs.append(dict(prog=[a, b, 'add_field'], input='I5'))
+    # a join followed by steps that read the joined field of every row (unmatched target rows carry it as a null)
+    for b in ('find_replace_b', 'sort_a', 'rename_a', 'acf_format', 'set_type_bc_tf'):
+        progs.append(dict(prog=['join', b], input='I1'))
     for a in ('duplicate', 'duplicate_end', 'dump_to_path', 'stream', 'checkpoint', 'sort_a', 'join_keep'):
         for b in ('nested_inplace', 'row_inplace'):
             progs.append(dict(prog=[a, b], input='I5'))
